@@ -36,6 +36,9 @@ type setup struct {
 	Disabled []bool
 	Subset   []int // indices, in order; nil = no explicit subset
 	Subset2  []int // explicit subset of a second policy (non-resource requests); nil = no second policy
+	// Noise: explicit two-endpoint subsets of many further policies (resource "noise<j>"), all distinct: a cluster
+	// with many dispatch policies keeps many rotations at once
+	Noise [][2]int
 }
 
 func endpoint(i int) string { return fmt.Sprintf("http://127.0.0.1:%d", 1000+i) }
@@ -72,6 +75,11 @@ func build(t interface{ Fatalf(string, ...interface{}) }, s setup) (*clusters.Cl
 			p2.UpstreamSubset = append(p2.UpstreamSubset, endpoint(i))
 		}
 		c.Spec.DispatchPolicies = []proxyv1alpha1.DispatchPolicy{p2, p}
+	}
+	for j := len(s.Noise) - 1; j >= 0; j-- {
+		pn := proxyv1alpha1.DispatchPolicy{Strategy: proxyv1alpha1.RoundRobin, Rules: []proxyv1alpha1.DispatchPolicyRule{{Verbs: []string{"*"}, APIGroups: []string{"*"}, Resources: []string{fmt.Sprintf("noise%d", j)}}},
+			UpstreamSubset: []string{endpoint(s.Noise[j][0]), endpoint(s.Noise[j][1])}}
+		c.Spec.DispatchPolicies = append([]proxyv1alpha1.DispatchPolicy{pn}, c.Spec.DispatchPolicies...)
 	}
 	ci, err := clusters.CreateClusterInfo(c, health, "", nil)
 	if err != nil {
@@ -161,6 +169,37 @@ func genSetup(t *rapid.T, explicit bool) setup {
 			}
 			s.Subset2 = perm2[:n2]
 		}
+		// many further policies, each with its own ordered pair of ready endpoints
+		var readyIdx []int
+		for i := 0; i < k; i++ {
+			if !s.Unready[i] && !s.Disabled[i] {
+				readyIdx = append(readyIdx, i)
+			}
+		}
+		if len(readyIdx) >= 5 && rapid.IntRange(0, 2).Draw(t, "manyPolicies") == 0 {
+			// (a pair equal to the ready list of an observed policy would share that policy's rotation by design)
+			readyOf := func(subset []int) []int {
+				var out []int
+				for _, i := range subset {
+					if !s.Unready[i] && !s.Disabled[i] {
+						out = append(out, i)
+					}
+				}
+				return out
+			}
+			r1, r2 := readyOf(s.Subset), readyOf(s.Subset2)
+			var pairs [][2]int
+			for _, a := range readyIdx {
+				for _, b := range readyIdx {
+					if a == b || (len(r1) == 2 && r1[0] == a && r1[1] == b) || (len(r2) == 2 && r2[0] == a && r2[1] == b) {
+						continue
+					}
+					pairs = append(pairs, [2]int{a, b})
+				}
+			}
+			pairs = rapid.Permutation(pairs).Draw(t, "noisePairs")
+			s.Noise = pairs[:rapid.IntRange(17, min(24, len(pairs))).Draw(t, "noisePolicies")]
+		}
 	}
 	return s
 }
@@ -177,7 +216,7 @@ func stop(ci *clusters.ClusterInfo) { ci.Stop() }
 
 // TestPropExplicitSubsetStrict: with an explicit subset every window of N consecutive picks is balanced to floor/ceil.
 func TestPropExplicitSubsetStrict(t *testing.T) {
-	sub := stats.NewSub("explicit-subset-strict", "rapid: k in 1..12 endpoints, each healthy / unhealthy / disabled, policy with an explicit upstream subset in any order, two times in three a second policy (for non-resource requests) with its own explicit subset - often of the same size - whose picks are interleaved following a generated pattern and judged on their own; L = 1..400 sequential picks (MatchAttributes + Pop per pick) with 0-3 re-deliveries of the unchanged object (ClusterInfo.Sync) at generated positions in between, then G goroutines x P picks; oracle: every pick is a ready endpoint of the subset; in every window of N consecutive sequential picks each of the r ready endpoints appears floor(N/r) or ceil(N/r) times; the totals over all picks (sequential + concurrent) are balanced to floor/ceil; no ready endpoint => error and no pick; non-trivial = >= 2 ready endpoints in the policy and L >= r; distinct by FNV-64 of (setup, L)")
+	sub := stats.NewSub("explicit-subset-strict", "rapid: k in 1..12 endpoints, each healthy / unhealthy / disabled, policy with an explicit upstream subset in any order, two times in three a second policy (for non-resource requests) with its own explicit subset - often of the same size - whose picks are interleaved following a generated pattern and judged on their own, and - with >= 5 ready endpoints, one time in three - 17-24 further policies with distinct two-endpoint subsets that all pick in rounds between the observed picks; L = 1..400 sequential picks (MatchAttributes + Pop per pick) with 0-3 re-deliveries of the unchanged object (ClusterInfo.Sync) at generated positions in between, then G goroutines x P picks; oracle: every pick is a ready endpoint of the subset; in every window of N consecutive sequential picks each of the r ready endpoints appears floor(N/r) or ceil(N/r) times; the totals over all picks (sequential + concurrent) are balanced to floor/ceil; no ready endpoint => error and no pick; non-trivial = >= 2 ready endpoints in the policy and L >= r; distinct by FNV-64 of (setup, L)")
 	stats.Check(t, stats.N(800, 6000), func(t *rapid.T) {
 		s := genSetup(t, true)
 		ci, ready, obj := build(t, s)
@@ -217,8 +256,22 @@ func TestPropExplicitSubsetStrict(t *testing.T) {
 			}
 		}
 		shared := fmt.Sprint(ready1) == fmt.Sprint(ready2) && r > 0
+		noisePattern := []bool{false}
+		if len(s.Noise) > 0 {
+			noisePattern = rapid.SliceOfN(rapid.Bool(), 1, 4).Draw(t, "noiseRoundBeforePickPattern")
+		}
 		var seqPicks, seqPicks2 []string
 		for i := 0; i < L; i++ {
+			if noisePattern[i%len(noisePattern)] {
+				// every one of the further policies picks once
+				for j, pr := range s.Noise {
+					e, err := pickFor(ci, gen.Request{Resource: true, Verb: "get", Res: fmt.Sprintf("noise%d", j), User: "u"}.Attributes())
+					if err != nil || (e != endpoint(pr[0]) && e != endpoint(pr[1])) {
+						t.Fatalf("policy noise%d (subset %v): picked %q, %v (setup %+v)", j, pr, e, err, s)
+					}
+				}
+				sub.Class("round-of-picks-by-17-24-further-policies")
+			}
 			if resyncAt[i] {
 				if err := ci.Sync(obj.DeepCopy()); err != nil {
 					t.Fatalf("harness: re-sync of the unchanged object failed: %v", err)
